@@ -183,7 +183,8 @@ def ensure_facts(configs=("default",), log=sys.stderr):
     return result
 
 
-def _prune(facts_root, keep, max_keep=6):
+def _prune(facts_root, keep, max_keep=None):
+    max_keep = int(os.environ.get("VERIF_FACTS_KEEP", "6")) if max_keep is None else max_keep
     try:
         ds = sorted((d for d in os.listdir(facts_root) if d != keep),
                     key=lambda d: os.path.getmtime(os.path.join(facts_root, d)))
